@@ -155,8 +155,8 @@ class C02Partition(Monitor):
     def on_transition(self, ctx, pre, post):
         f = post.flux
         ctx.evals += 1
-        w = ctx.model._weather[pre.t]
-        P = float(w[2])
+        from ..driver import configured_weather
+        P = configured_weather(ctx, pre.date)[2]     # the rain the USER supplied for this date, not the model's own matrix
         method = int(self.irr.irrigation_method)
         irr = float(f[FX["IrrDay"]]) if (post.gs and method != 4) else 0.0
         # the efficiency the USER configured (a constructor that rewrites it must not hide a mismatch)
